@@ -243,7 +243,7 @@ def signature(case, verdict):
         what = "crash-" + ev.get("error", "").split(":")[0]
     elif ev.get("ev") in ("SaveOutput", "SaveFail"):
         rows = ev.get("rows", {})
-        bad = [k for k in ("epochs_ok", "readback") if rows.get(k) is False] + (["dangling"] if rows.get("dangling") else [])
+        bad = [k for k in ("epochs_ok", "readback") if rows.get(k) is False] + (["dangling"] if rows.get("dangling") else []) + (["duplicate-rows"] if rows.get("dup_rows") else [])
         what = f"unexplained-{ev['ev']}" + ("-" + "+".join(bad) if bad else "-rows")
     else:
         what = "unexplained-" + str(ev.get("ev", "end"))
